@@ -230,6 +230,65 @@ func main() {
 	r := rand.New(rand.NewSource(*seed))
 	dist := map[uint64]bool{}
 	evals := 0
+	if *mode == "c05big" {
+		// counters between 2^40 and 2^60 on one intra-node flow per history (spec/trace/C05BigTrace.tla)
+		l4 := func(x uint64) []int { return []int{int(x & 0xffff), int(x >> 16 & 0xffff), int(x >> 32 & 0xffff), int(x >> 48 & 0xffff)} }
+		nh := 60
+		if thorough {
+			nh = 600
+		}
+		keys := []string{"k1", "k4", "k6"}
+		for i := 0; i < nh; i++ {
+			p := agg.New(2, 3, 1, 1)
+			w.Reset(vt.Ev{"tag": "big"})
+			k := keys[r.Intn(len(keys))]
+			fk := agg.Pool[k].FlowKey()
+			start := 1000 + r.Intn(50)
+			end := start
+			var oct, roct uint64
+			for j := 0; j < 3+r.Intn(4); j++ {
+				evals++
+				grow := func() uint64 {
+					switch r.Intn(4) {
+					case 0:
+						return uint64(r.Intn(3))
+					case 1: // just around 2^51..2^53, where float64 stops being exact for 8 x growth
+						return 1<<uint(51+r.Intn(3)) + uint64(r.Intn(16))
+					}
+					return 1<<uint(40+r.Intn(18)) + uint64(r.Int63n(1<<40))
+				}
+				oct, roct = oct+grow(), roct+grow()
+				if oct >= 1<<60 || roct >= 1<<60 {
+					break
+				}
+				end += 1 + r.Intn(9)
+				rec := agg.Rec{Key: k, Sp: "pod-a", Dp: "pod-b", Sns: "ns-a", Dns: "ns-b", Ftype: 1, Reason: 2, Start: start, End: end,
+					Vals: []int{10 * (j + 1), 10, int(oct), 20 * (j + 1), 20, int(roct)}}
+				err := p.A.AggregateMsgByFlowKey(agg.BuildMessage(rec))
+				ev := vt.Ev{"e": "Big", "err": err != nil, "start": start, "end": end, "oct": [][]int{l4(oct), l4(roct)}}
+				recs := p.A.GetRecords(&fk)
+				if len(recs) != 1 {
+					ev["err"] = true
+				} else {
+					g := func(n string) []int {
+						if v, ok := recs[0][n].(uint64); ok {
+							return l4(v)
+						}
+						return []int{-1, -1, -1, -1}
+					}
+					ev["com"] = [][]int{g("octetTotalCount"), g("reverseOctetTotalCount")}
+					ev["tp"] = [][]int{g("throughput"), g("reverseThroughput")}
+					ev["tpS"] = [][]int{g("throughputFromSourceNode"), g("reverseThroughputFromSourceNode")}
+					ev["tpD"] = [][]int{g("throughputFromDestinationNode"), g("reverseThroughputFromDestinationNode")}
+				}
+				w.Emit(ev)
+				dist[oct^roct] = true
+			}
+		}
+		w.Close()
+		vt.PrintSummary(vt.Summary{Events: w.Events(), Traces: w.Traces(), Evaluations: evals, Distinct: len(dist)})
+		return
+	}
 	// engine A: schedules from TLC's state graph of AggExpiryMC
 	if *sched != "" {
 		f, err := os.Open(*sched)
